@@ -359,6 +359,7 @@ impl<'a> Ctx<'a> {
                     let sb = bytemuck::bytes_of(&**st);
                     format!("{}:{}:{}:{}:{}", hex::encode(r1), sc_hex(b), hex::encode(&sb[32..32 + L_BYTES]), hex::encode(&sb[32 + 2 * L_BYTES..]), used) } };
                 if imp != model { self.diverge(&stream, idx, &line, "rvole:recvnew-model", "Lean receiverNew and RVOLEReceiver::new disagree (round-one message, b, beta, v_x, tape)", &imp, &model); }
+                if got.is_none() { self.pred(&stream, idx, &line, "rvole:honest-panic:ext", "RVOLEReceiver::new panics in an honest run (this build checks arithmetic overflow)".into(), "panic", "b, round-one message"); }
                 let (st, r1, b, used) = got?;
                 if used != EXT_RTAPE { self.rep.hist("unexpected-receiver-tape-consumption"); }
                 let sb = bytemuck::bytes_of(&*st).to_vec();
@@ -386,6 +387,7 @@ impl<'a> Ctx<'a> {
                     format!("{}:{}:{}:{}", hex::encode(m1), sc_hex(b), hex::encode(&sb[32..32 + L_BYTES]), used) } };
                 let mdl = format!("{}:{}:{}:{}", f[0], f[1], f[2], f[5]);
                 if imp != mdl { self.diverge(&stream, idx, &line, "rvole:otrecvnew-model", "Lean receiverNewOt and RVOLEReceiver::new (base-OT variant) disagree (RVOLEMsg1, b, beta, tape)", &imp, &mdl); }
+                if got.is_none() { self.pred(&stream, idx, &line, "rvole:honest-panic:ot", "RVOLEReceiver::new (base-OT variant) panics in an honest run (this build checks arithmetic overflow)".into(), "panic", "b, RVOLEMsg1"); }
                 let (r, m1, b, _) = got?;
                 let beta = bytemuck::bytes_of(&*r.st)[32..32 + L_BYTES].to_vec();
                 let mstate = format!("{} {} {}", hex::encode(&beta), f[3], f[4]);
@@ -864,6 +866,17 @@ fn run_c01(o: &Opts, cx: &mut Ctx) {
             cx.rep.hist("zero-on-the-wire:a_tilde entry");
             scenario(cx, &format!("{} honest", key_of(v, prov, sid, &a, seed, 0).line()));
         }
+    }
+    // ---- dense beta (all ones) under SEVERAL session ids: b = <g, beta> then sums all 512 gadget elements, and the gadget vector
+    //      depends on the session id — sums near the top of any accumulator's range show for some ids only
+    for k in 0..(if thorough { 8 } else { 4 }) {
+        let a = [special_scalar(&mut rng, 3), special_scalar(&mut rng, k % 4)];
+        let mut sid = [k as u8; 32]; if k % 2 == 1 { rng.fill_bytes(&mut sid); }
+        let key = key_of(Variant::Ot, "na", sid, &a, rng.next_u64() >> 1, 2);
+        cx.cache.clear();
+        cx.rep.hist("dense-beta:several-session-ids:ot");
+        scenario(cx, &format!("{} honest", key.line()));
+        if k < 2 { let key = key_of(Variant::Ext, "syn", sid, &a, rng.next_u64() >> 1, 2); cx.cache.clear(); cx.rep.hist("dense-beta:several-session-ids:ext"); scenario(cx, &format!("{} honest", key.line())); }
     }
     // consecutive sessions on ONE thread whose ids are related (shared prefixes of 8/9/16/31 bytes, ids differing in one
     // late byte, the same id again, all-zero then one-hot): the functions are specified as pure in (session id, inputs,
